@@ -274,6 +274,89 @@ func c10Worker(w *W) {
 		return lines, times
 	}
 
+	// scenario: the context-fields hook hands out one shared, immutable slice with spare capacity (a perfectly
+	// legal thing to do); several events are in flight in an asynchronous logger at the same time. Every record
+	// must still carry the hook's fields followed by ITS OWN fields.
+	if w.Spec.Shard == 1%w.Spec.NShards {
+		for _, kind := range []string{"AsyncLogger", "Logger"} {
+			cfg := map[string]string{"appender.rg.type": "VGate", "logger.lg.type": kind, "logger.lg.tags": "c10tag", "logger.lg.appenderRef.ref": "rg", "enableCaller": "true", "fastCaller": "false"}
+			if kind == "AsyncLogger" {
+				cfg["logger.lg.bufferFullPolicy"] = "Block"
+			}
+			if err := log.Refresh(cfg); err != nil {
+				w.Violate("C10:refresh-failed", err.Error(), cfg)
+				log.Destroy()
+				continue
+			}
+			g := gateFor("rg")
+			g.Open.Store(kind == "Logger") // the synchronous logger cannot be gated from the caller's goroutine
+			common := make([]log.Field, 2, 16)
+			common[0], common[1] = log.String("svc", "checkout"), log.String("region", "eu-1")
+			calls := 0
+			log.FieldsFromContext = func(c context.Context) []log.Field { calls++; return common }
+			ctx := context.Background()
+			var ids []string
+			for i := 0; i < 6; i++ {
+				id := fmt.Sprintf("id-shared%s-%d", alnum(kind), i)
+				ids = append(ids, id)
+				switch i % 3 {
+				case 0:
+					log.Info(ctx, tag, log.Msg(id), log.Int("own", i))
+				case 1:
+					log.Warnf(ctx, tag, "%s", id)
+				default:
+					log.Debug(ctx, tag, func() []log.Field { return []log.Field{log.Msg(id), log.Int("own", i)} })
+				}
+			}
+			log.FieldsFromContext = nil
+			g.Open.Store(true)
+			for i := 0; i < 8; i++ {
+				g.Gate <- struct{}{}
+			}
+			log.Destroy()
+			for len(g.Entered) > 0 {
+				<-g.Entered
+			}
+			for len(g.Gate) > 0 {
+				<-g.Gate
+			}
+			seen := map[string]string{}
+			for _, it := range rec.take() {
+				seen[idOf(it.JSON)] = string(it.JSON)
+			}
+			okAll := calls == len(ids)
+			if calls != len(ids) {
+				w.Violate("C10:hook-count:FieldsFromContext:enabled", fmt.Sprintf("shared-slice scenario: hook ran %d times for %d emitted events", calls, len(ids)), nil)
+			}
+			for i, id := range ids {
+				line, ok := seen[id]
+				cs := map[string]any{"scenario": "context-fields hook returns one shared slice with spare capacity", "logger": kind, "event": i}
+				w.Eval(1)
+				if !ok {
+					okAll = false
+					w.Violate("C10:record-fields", fmt.Sprintf("%s logger, several events in flight, hook result is a shared slice with spare capacity: the record of %s does not carry its own msg field (records seen: %d of %d distinct)", kind, id, len(seen), len(ids)), cs)
+					break
+				}
+				pSvc, pReg, pMsg := strings.Index(line, `"svc":"checkout"`), strings.Index(line, `"region":"eu-1"`), strings.Index(line, `"msg":"`+id+`"`)
+				if pSvc < 0 || pReg < 0 || !(pSvc < pReg && pReg < pMsg) {
+					okAll = false
+					w.Violate("C10:field-order", "shared-slice scenario: context fields missing or not ahead of the call's fields: "+trunc(line, 300), cs)
+					break
+				}
+				if i%3 != 1 && !strings.Contains(line, fmt.Sprintf(`"own":%d`, i)) {
+					okAll = false
+					w.Violate("C10:record-fields", "shared-slice scenario: record lacks its own 'own' field: "+trunc(line, 300), cs)
+					break
+				}
+			}
+			if common[0].Key != "svc" || common[1].Key != "region" || len(common) != 2 {
+				w.Violate("C10:record-fields", "the library modified the slice returned by the context-fields hook", nil)
+			}
+			if okAll {
+				w.Distinct("shared-capacity-hook-slice|" + kind)
+			}
+		}
+	}
 	stride := int(w.Spec.N)
 	if stride < 1 {
 		stride = 1
@@ -328,7 +411,7 @@ func init() {
 		ID: "C10", Level: "exploration", MinDistinct: 500, Worker: c10Worker,
 		Rule: "cross product of 24 call forms (14 fixed-level entry points + Record at 10 levels incl. custom and NONE) x 8 subsets of the three hooks set x 5 contexts (Background, TODO, value chain, cancelled, nil) under: the built-in logger before any Refresh, and Refresh-built sync and async(Block) loggers x enableCaller on/off x fastCaller on/off x 10 logger level ranges chosen so that every level is enabled in some and disabled in others " +
 			"(quick: the cross product under each Refresh is strided, the before-Refresh state is complete). Monitors: counting closures per call (hooks, lazy generator, identity of the context they receive), recording appender / console collector for the emitted record (hook time or [before,after] bracket, context string, context fields ahead of call fields). " +
-			"Non-trivial/distinct = distinct (state, call form, enabled/disabled, hook subset, context kind) tuples whose counts were right.",
+			"One further scenario keeps six events in flight in an asynchronous logger (gated appender) while the context-fields hook returns one shared immutable slice with spare capacity: every record must carry the hook's fields followed by its own. Non-trivial/distinct = distinct (state, call form, enabled/disabled, hook subset, context kind) tuples whose counts were right.",
 		Assumptions: []string{"hooks are swapped between calls by the harness while no log call is in progress (single goroutine)", "the wall-clock bracket for unset TimeNow is widened by 1 ms on both sides (monotonic vs wall clock reading)"},
 		Run: func(d *D) {
 			var specs []Spec
